@@ -32,3 +32,6 @@ CLAIMS["C15"] = ("exploration",
     "The harness owns the schedule: a baton scheduler driven by sys.settrace call events gives deterministic interleavings; every single-preemption schedule at every rtflite call boundary is enumerated for the listed document pairs (thorough: all ordered pairs and line-level preemption inside the modules holding global state), Hypothesis draws 2-3 preemption / 3-thread schedules; oracle = each thread's string equals the sequential result. " + _EXPL,
     "Preemption granularity is rtflite function calls (lines in color_service.py / registry.py in thorough); C code in polars/pydantic is atomic under this scheduler.",
     "schedule enumeration + Hypothesis-generated schedules under a harness-owned deterministic scheduler, differential oracle vs sequential run")
+CLAIMS["C08"] = ("exploration",
+    "Hypothesis-generated tables (1-12 columns, float relative widths, col_width 2-12 in, all header modes, 1-3 removed columns at any position, table footnote/source, multi-section) including a history dimension (body/header objects first used by a document with another column count); oracle on parsed \\cellx with an exact rational reference and 1-twip tolerance. " + _EXPL,
+    _READER, "property-based testing: Hypothesis documents incl. object-reuse histories, exact-arithmetic reference for cell boundaries")
